@@ -23,6 +23,9 @@ import KinModel.PanicSites
 import KinModel.Gen.PanicSites
 import KinModel.MapRanges
 import KinModel.Gen.MapRanges
+import KinModel.SchemaSites
+import KinModel.Gen.SubSchemaFields
+import KinModel.Gen.SchemaErrorSites
 import KinModel.NoPanic.Server
 import KinModel.NoPanic.Router
 import KinModel.NoPanic.Recursion
@@ -76,6 +79,18 @@ theorem no_order_dependent_panic :
 theorem order_visible_rows :
     MapRanges.panicFreeRows MapRanges.expectations Gen.mapRanges =
       ["permutePart", "NewRouter", "UrlencodedBodyDecoder", "buildResObj", "makeObject", "notJSONData"] := by decide
+
+/-! ## T3: `IsEmpty` is only evaluated where it terminates; enum errors carry their schema -/
+
+/-- `Schema.IsEmpty` descends through Not, AdditionalProperties.Schema, Items, Properties, OneOf, AnyOf, AllOf without
+    a visited set; `hasSubSchemas` tests every one of them and the only caller outside `IsEmpty` (`visitJSON`) stands
+    behind `!schema.hasSubSchemas() &&`. A field dropped from `hasSubSchemas` (the seeded change C10-r3m2), a new
+    field in `IsEmpty`, or a new unguarded caller breaks this. -/
+theorem isEmpty_fields_all_guarded : SchemaSites.isEmptyGuarded Gen.subSchemaFields = true := by decide
+
+/-- every `SchemaError` literal of openapi3 / openapi3filter whose `SchemaField` is "enum" (or is not a literal) sets
+    `Schema`: the errors the library builds satisfy `ErrWF` -/
+theorem enum_errors_carry_schema : SchemaSites.enumErrorsCarrySchema Gen.schemaErrorSites = true := by decide
 
 /-! ## Server.MatchRawURL -/
 
@@ -178,7 +193,17 @@ theorem guarded_recursion_terminates (own : Bool) (v : Recursion.J) :
 theorem isEmpty_still_diverges (fuel : Nat) : Recursion.isEmpty (Recursion.ΓL false) fuel (.ref 0) = .diverge :=
   (Recursion.isEmpty_diverges fuel).1
 theorem isEmpty_without_subschemas_answers (Γ : Recursion.Env) (own : Bool) (fuel : Nat) :
-    Recursion.isEmpty Γ (fuel + 1) (.node own none [] [] none) = .ok (!own) := Recursion.isEmpty_no_sub Γ own fuel
+    Recursion.isEmpty Γ (fuel + 1) (.node own none [] [] none [] none) = .ok (!own) := Recursion.isEmpty_no_sub Γ own fuel
+
+/-- `Labels: {additionalProperties: {$ref: Labels}}` is decided on every value although `Schema.IsEmpty` does not
+    terminate on it: `visitJSON` only evaluates `IsEmpty` on schemas without sub-schemas (obligation
+    `isEmpty_fields_all_guarded` over the regenerated table `SubSchemaFields`) -/
+theorem addl_cycle_decided (s : Recursion.S) (v : Recursion.J) :
+    ∃ n b, ∀ m, n ≤ m → Recursion.visit (Recursion.envOf [.node false none [] [] none [] (some (.ref 0))]) m s v = .ok b :=
+  Recursion.guardedB_sound _ (by decide) v s
+
+theorem isEmpty_addl_cycle_diverges (fuel : Nat) : Recursion.isEmpty Recursion.ΓP fuel (.ref 0) = .diverge :=
+  (Recursion.isEmpty_addl_diverges fuel).1
 
 /-- the same defect through the other unguarded positions: `A: {not: {$ref: A}}`, `A: {anyOf: [{$ref: A}]}` -/
 theorem unguarded_not_diverges (v : Recursion.J) (fuel : Nat) :
@@ -204,17 +229,21 @@ theorem guarded_recursion_decided_partial (defs : List Recursion.S) (hx : ExclRe
 /-- the check separates the witnesses: the three unguarded self-references are excluded, the guarded ones and a
     two-definition chain are not; the depth-bounded cycle search of the driver agrees on them -/
 theorem unguarded_cycle_detected :
-    ExclRec [.node true none [] [.ref 0] none] = true ∧ ExclRec [.node false none [] [.ref 0] none] = true ∧
-    ExclRec [.node false (some (.ref 0)) [] [] none] = true ∧ ExclRec [.node false none [.leaf true, .ref 0] [] none] = true ∧
-    ExclRec [.node false none [] [] (some (.ref 0))] = false ∧
-    ExclRec [.node false none [] [.ref 1] (some (.ref 0)), .node true (some (.leaf false)) [.leaf true] [] (some (.ref 0))] = false ∧
-    Recursion.hasUnguardedCycle [.node true none [] [.ref 0] none] = true ∧
-    Recursion.hasUnguardedCycle [.node false none [] [.ref 0] none] = true ∧
-    Recursion.hasUnguardedCycle [.node false none [] [] (some (.ref 0))] = false := by decide
+    ExclRec [.node true none [] [.ref 0] none [] none] = true ∧ ExclRec [.node false none [] [.ref 0] none [] none] = true ∧
+    ExclRec [.node false (some (.ref 0)) [] [] none [] none] = true ∧ ExclRec [.node false none [.leaf true, .ref 0] [] none [] none] = true ∧
+    ExclRec [.node false none [] [] (some (.ref 0)) [] none] = false ∧
+    ExclRec [.node false none [] [.ref 1] (some (.ref 0)) [] none, .node true (some (.leaf false)) [.leaf true] [] (some (.ref 0)) [] none] = false ∧
+    Recursion.hasUnguardedCycle [.node true none [] [.ref 0] none [] none] = true ∧
+    Recursion.hasUnguardedCycle [.node false none [] [.ref 0] none [] none] = true ∧
+    Recursion.hasUnguardedCycle [.node false none [] [] (some (.ref 0)) [] none] = false ∧
+    -- cycles through additionalProperties / properties are guarded (the class of C10-r3m2: Labels, Node)
+    ExclRec [.node false none [] [] none [] (some (.ref 0))] = false ∧
+    ExclRec [.node false none [] [] none [(1, .ref 0)] none] = false ∧
+    ExclRec [.node false none [] [] none [(1, .node false none [] [.ref 0] none [] none)] (some (.ref 0))] = false := by decide
 
 /-- non-vacuity of the general theorem: a two-definition environment with a guarded cycle and an unguarded chain -/
 example : ∃ n b, ∀ m, n ≤ m → Recursion.visit
-    (Recursion.envOf [.node false none [] [.ref 1] (some (.ref 0)), .node true (some (.leaf false)) [.leaf true] [] (some (.ref 0))])
+    (Recursion.envOf [.node false none [] [.ref 1] (some (.ref 0)) [] none, .node true (some (.leaf false)) [.leaf true] [] (some (.ref 0)) [] none])
     m (.ref 0) (.arr [.num 1, .arr [.num 2]]) = .ok b :=
   guarded_recursion_decided_partial _ (by decide) _ _
 
@@ -441,6 +470,27 @@ theorem convertErrors_no_panic (e : ReqErrM) (h : ErrWF e = true) : (convertErro
   | emptyValue => rfl
   | parse a b c => rfl
   | other => rfl
+
+/-- what one literal of the table builds, as `ConvertErrors` sees it -/
+def builtBy (r : SchemaSites.ErrRow) : SchemaErrM := ⟨r.enumLike, !r.schemaSet⟩
+
+/-- `ErrWF` is not an assumption about the library's own errors: a request error whose schema-error chain consists
+    of errors built by the literals of the regenerated table `SchemaErrorSites` is well-formed, so `ConvertErrors`
+    does not panic on it -/
+theorem convertErrors_no_panic_of_library_errors (paramNil : Bool) (chain : List SchemaErrM)
+    (h : ∀ x ∈ chain, ∃ r ∈ Gen.schemaErrorSites, x = builtBy r) :
+    (convertErrors ⟨paramNil, .schema chain⟩).bad = false := by
+  apply convertErrors_no_panic
+  unfold ErrWF
+  simp only [List.all_eq_true]
+  intro x hx
+  obtain ⟨r, hr, rfl⟩ := h x hx
+  have hall := enum_errors_carry_schema
+  unfold SchemaSites.enumErrorsCarrySchema at hall
+  simp only [Bool.and_eq_true, List.all_eq_true] at hall
+  have := hall.1 r hr
+  simp only [builtBy]
+  cases he : r.enumLike <;> cases hs : r.schemaSet <;> simp_all
 
 /-- the whole modelled path: route (either router) → request → response → error conversion -/
 structure Scenario where
